@@ -4,13 +4,17 @@ seeded/<ID>/meta.json with what the coordinator ran and observed, and write docs
 import glob, json, os, re
 V = os.path.dirname(os.path.dirname(os.path.abspath(__file__)))
 rows = []
-for log in sorted(glob.glob(os.path.join(V, 'build', 'seedlog', '*.log'))):
-    sid = os.path.basename(log)[:-4]
-    txt = open(log, errors='replace').read()
-    mpath = os.path.join(V, 'seeded', sid, 'meta.json')
-    if not os.path.exists(mpath):
-        continue
+for mpath in sorted(glob.glob(os.path.join(V, 'seeded', 'C??-?', 'meta.json'))):
+    sid = os.path.basename(os.path.dirname(mpath))
     meta = json.load(open(mpath))
+    log = os.path.join(V, 'build', 'seedlog', sid + '.log')
+    if not os.path.exists(log):
+        # no run of this seed in this session: keep what the last run recorded
+        cc = meta.get('coordinator_confirmation')
+        if cc:
+            rows.append((sid, meta, cc.get('confirmed', False), cc.get('checks', [])))
+        continue
+    txt = open(log, errors='replace').read()
     conf = re.search(r'^%s: (.*)$' % re.escape(sid), txt, flags=re.M)
     confirmation = conf.group(1) if conf else 'not confirmed'
     ok = ('demo-with=[FAIL' in confirmation or 'demo-with=[---' in confirmation) and 'demo-without=[ok' in confirmation and 'build=ok' in confirmation
